@@ -72,7 +72,11 @@
 use std::io;
 
 use std::marker::PhantomData;
+#[cfg(not(seq_io_verif))]
 use std::sync::mpsc;
+// verification hook (off by default): channels of a controlled scheduler, see /verif/DESIGN.md
+#[cfg(seq_io_verif)]
+use seq_io_verif_rt::mpsc;
 
 pub trait Reader {
     type DataSet: Send;
